@@ -59,6 +59,12 @@ Catalogue == {
   T("table_named", "Lua51", "table", <<Local(<<"t">>, <<Table(<<FName("k", One), FExpr(A, B)>>)>>)>>),
   T("table_empty", "Lua51", "table", <<Local(<<"t">>, <<Table(<<>>)>>)>>),
   T("table_nested", "Lua51", "table", <<Local(<<"t">>, <<Table(<<FPos(Table(<<FPos(One)>>)), FName("k", Table(<<>>))>>)>>)>>),
+  T("table_fn", "Lua51", "table", <<Local(<<"t">>, <<Table(<<FName("k", One), FName("cb", Func(<<>>, EmptyBlock))>>)>>)>>),
+  T("table_fn_ret", "Lua51", "table", <<Local(<<"t">>, <<Table(<<FName("cb", Func(<<"p">>, RetBody)), FPos(One)>>)>>)>>),
+  T("table_call", "Lua51", "table", <<Local(<<"t">>, <<Table(<<FPos(CallF(<<A>>)), FName("k", CallF(<<>>))>>)>>)>>),
+  T("return_table", "Lua51", "table", <<Return(<<Table(<<FPos(A), FPos(B)>>)>>)>>),
+  T("call_fn0", "Lua51", "call", <<CallStmt(CallF(<<Func(<<>>, EmptyBlock)>>))>>),
+  T("call_nested", "Lua51", "call", <<CallStmt(CallF(<<CallOf("g", <<A>>), CallOf("h", <<>>)>>))>>),
   T("binop", "Lua51", "expr", <<Local(<<"x">>, <<Bin("+", A, Bin("*", B, Cn))>>)>>),
   T("binop_par", "Lua51", "expr", <<Local(<<"x">>, <<Bin("*", Par(Bin("+", A, B)), Cn)>>)>>),
   T("concat", "Lua51", "expr", <<Local(<<"x">>, <<Bin("..", A, Bin("..", B, Cn))>>)>>),
